@@ -40,7 +40,9 @@ def run_kani_part(pid, rep):
         else:
             entry["why"] = why
             inconclusive.append("%s: %s" % (name, why))
-            if r["status"] == "TIMEOUT":
+            # a harness that diverges (per-harness timeout) or exhausts the memory limit under the
+            # current tree: the public-API batteries of its family are run as a fallback
+            if r["status"] == "TIMEOUT" or (r.get("error") and ("CBMC failed" in r["error"] or "memory" in r["error"].lower())):
                 timed_out.setdefault(spec["replay"], []).append((name, r))
         samples.append(entry)
     replayed = 0
@@ -83,7 +85,7 @@ def run_kani_part(pid, rep):
             found += getattr(replays, "replay_" + part)(items)
         for roles, record in found:
             record = dict(record, harnesses_timed_out=[n for n, _ in items],
-                          note="found by the public-API replay battery after the solver run diverged (CBMC timeout); not a solver verdict")
+                          note="found by the public-API replay battery after the solver run diverged (CBMC timeout or memory limit); not a solver verdict")
             rep.candidate(set(roles) | {"found-by-battery-after-harness-timeout"}, record)
     cov = {
         "obligations": len(specs), "discharged": passed,
